@@ -235,6 +235,19 @@ class Fault:
             return false_value
         if kind == "raise":
             raise FaultRaised("injected callback failure")
+        # other exception classes a callback may plausibly let escape; none of them may be
+        # treated differently from a plain failure (SystemExit is left out: printing it ends
+        # the interpreter by design)
+        if kind == "raise-interrupted":
+            raise InterruptedError("injected EINTR")
+        if kind == "raise-keyboard":
+            raise KeyboardInterrupt()
+        if kind == "raise-generatorexit":
+            raise GeneratorExit()
+        if kind == "raise-stopiteration":
+            raise StopIteration()
+        if kind == "raise-memory":
+            raise MemoryError()
         return bad_value(kind)
 
 
@@ -304,7 +317,7 @@ def run_scenario(base, geometric, sc):
         path = planner.solve(pf(sc["timeout_secs"]))
         out["outcome"] = "path"
         out["path"] = [bld.flat(s) for s in path.states]
-    except FaultRaised:
+    except (FaultRaised, KeyboardInterrupt, GeneratorExit, InterruptedError, StopIteration, MemoryError):
         out["outcome"] = "error"
         out["message"] = "injected exception escaped to the caller"
     except Exception as e:  # planner errors are plain Exceptions with the core's message
